@@ -373,6 +373,7 @@ def check(chk):
                detail="waits %s" % sorted(names), construct=f_.ident, text="%s waits %s" % (cls, sorted(names - posted_lits)))
 
     _producers(chk, repo)
+    _conditions_at_dispatch(chk, repo)
 
     # ------------------------------------------------------------ PAIR-19
     f = repo.func("mpf/core/config_player.py", "ConfigPlayer._update_subscription")
@@ -434,6 +435,30 @@ def check(chk):
     st = [x for x in walk_local(f.node) if isinstance(x, ast.Assign) and src(x.targets[0]) == "subscription_list[template]"]
     chk.ob("PAIR-19", "the live subscription is stored where unload cancels it", bool(st) and src(st[0].value) == "subscription", f.where(), construct=f.ident,
            text="subscription stored")
+
+
+def _conditions_at_dispatch(chk, repo):
+    """STALE-1: a conditional handler's condition is evaluated when the handler is reached -- inside the dispatch loop, in the same
+    iteration as the call -- never once ahead of the loop (earlier handlers, or a queue wait, may change what it reads)."""
+    EV = "mpf/core/events.py"
+    n = 0
+    for nm in ("_run_handlers", "_run_handlers_sequential"):
+        f = repo.func(EV, "EventManager." + nm)
+        chk.analysed(f)
+        calls = [c for c in ast.walk(f.node) if isinstance(c, ast.Call) and call_attr(c) == "callback" and isinstance(c.func, ast.Attribute) and isinstance(c.func.value, ast.Name)]
+        chk.need(calls, "STALE-1", "%s calls the handlers" % nm, f)
+        loops = [lp for lp in ast.walk(f.node) if isinstance(lp, (ast.For, ast.AsyncFor)) and any(y is calls[0] for st in lp.body for y in ast.walk(st))]
+        chk.need(loops, "STALE-1", "%s calls the handlers in a loop" % nm, f)
+        lp = loops[-1]
+        evs = [x for x in ast.walk(f.node) if isinstance(x, ast.Call) and call_attr(x) == "evaluate" and ".condition" in src(x.func)]
+        chk.need(evs, "STALE-1", "%s evaluates handler conditions" % nm, f)
+        for x in evs:
+            n += 1
+            inside = any(y is x for st in lp.body for y in ast.walk(st))
+            chk.ob("STALE-1", "%s evaluates a handler's condition in that handler's own iteration of the dispatch loop" % nm, inside, f.where(x),
+                   detail="a condition evaluated before the loop is stale for every handler that runs after another one", construct=f.ident,
+                   text="condition evaluated outside the dispatch loop in " + nm)
+    chk.ob("STALE-1", "dispatch-time condition evaluations examined", n >= 2, EV + ":1", detail=str(n), nontrivial=False)
 
 
 def _producers(chk, repo):
@@ -624,6 +649,8 @@ def battery():
         M("waiters forgotten before they are woken", "mpf/core/device_monitor.py", "                for future in cls.attribute_futures[self_inner][attribute_name]:\n                    if not future.done():\n                        future.set_result(True)\n                cls.attribute_futures[self_inner][attribute_name] = []", "                cls.attribute_futures[self_inner][attribute_name] = []\n                for future in cls.attribute_futures[self_inner][attribute_name]:\n                    if not future.done():\n                        future.set_result(True)", "NOTIFY-1"),
         M("aliased attribute notified under its private name", "mpf/core/device_monitor.py", "                    attribute_name = self._aliased_attributes_to_monitor[name]", "                    attribute_name = name", "NOTIFY-1"),
         M("twin: done futures skipped with continue", "mpf/core/device_monitor.py", "                    if not future.done():\n                        future.set_result(True)\n", "                    if future.done():\n                        continue\n                    future.set_result(True)\n", None),
+        M("queue-event conditions evaluated once before the dispatch loop", "mpf/core/events.py", "        for handler in self.registered_handlers[event][:]:", "        for handler in [h for h in self.registered_handlers[event] if h.condition is None or h.condition.evaluate(dict(list(kwargs.items()) + list(h.kwargs.items())))]:", "STALE-1", nth=0),
+        M("event conditions evaluated once before the dispatch loop", "mpf/core/events.py", "        for handler in self.registered_handlers[event][:]:", "        for handler in [h for h in self.registered_handlers[event] if h.condition is None or h.condition.evaluate(dict(list(kwargs.items()) + list(h.kwargs.items())))]:", "STALE-1", nth=1),
     ]
 
 
